@@ -107,6 +107,11 @@ type Case struct {
 	// that answers after 0..NotifyDelayMs
 	Notify        bool `json:"notify,omitempty"`
 	NotifyDelayMs int  `json:"notify_delay_ms,omitempty"`
+	// BlBurst > 0 (L3 only, first repetition): that many distinct addresses are black-listed for 0 / 1 s through the
+	// API while the workers run, then — after 2.1 s of wall clock, when all of them have expired — several goroutines
+	// issue HLS requests at the same moment: every request consults the blacklist (and sweeps its expired entries) in
+	// a handler goroutine of its own
+	BlBurst int `json:"bl_burst,omitempty"`
 	// Codec: index into codecSets (what publishers and the origin carry); single inputs deviate (op argument)
 	Codec int `json:"codec,omitempty"`
 }
@@ -173,6 +178,9 @@ func genCase(t *rapid.T) Case {
 	rnd := rand.New(rand.NewSource(int64(rapid.Uint64().Draw(t, "opSeed"))))
 	pauses := []int{0, 0, 0, 0, 0, 0, 1, 1, 1, 1, 20, 20, 200, 200, 1500, 1500, 60000, 260000}
 	c.Codec = []int{0, 0, 0, 1, 2, 3, 4, 5, 6}[rnd.Intn(9)]
+	if c.L3 {
+		c.BlBurst = []int{0, 0, 30, 250}[rnd.Intn(4)]
+	}
 	k := rapid.IntRange(2, 8).Draw(t, "workers")
 	maxOps := 10
 	if pbt.Thorough() {
@@ -262,7 +270,7 @@ func classify(c Case) (bool, []string) {
 		labels = append(labels, "dispose:at-end")
 	}
 	for name, on := range map[string]bool{"hls": c.Hls, "hook": c.Hook, "push": c.Push, "record": c.Record, "l3": c.L3, "merge-write": c.Merge > 0,
-		"dummy-audio": c.DummyAudio, "static-pull": c.StaticPull, "linger>=1s": c.LingerMs >= 1000, "linger": c.LingerMs > 0, "lal-http-notify": c.Notify} {
+		"dummy-audio": c.DummyAudio, "static-pull": c.StaticPull, "linger>=1s": c.LingerMs >= 1000, "linger": c.LingerMs > 0, "lal-http-notify": c.Notify, "blacklist-expiry-burst": c.BlBurst > 0} {
 		if on {
 			labels = append(labels, "cfg:"+name)
 		}
